@@ -330,10 +330,24 @@ func electCase(c *Ctx, nodeCount, randCount uint8, height uint64, in []pdIn, may
 	if !sameElected(res, res4) {
 		c.Fail("election: schedule depends on the proof hash, not only on (delegations, height); %s", where)
 	}
+	if elx != nil {
+		// repeated at the end of the stream under process-wide math/rand noise; persisted and read back now
+		elx.recs = append(elx.recs, electRec{nodeCount, randCount, height, in, obs})
+		producers := make([]types.Address, 0, len(res))
+		for _, r := range res {
+			producers = append(producers, r.Producing)
+		}
+		elx.checkElection(where, producers, delegs)
+	}
 }
 
 func init() {
 	register("election", func(c *Ctx) {
+		elx = newElectExtra(c)
+		defer func() {
+			elx.cleanup()
+			elx = nil
+		}()
 		mkIn := func(k int) []pdIn {
 			names := genNames(c, k)
 			ws := genWeights(c, k)
@@ -363,7 +377,13 @@ func init() {
 			}
 			k := genCount(c, int(n))
 			electCase(c, n, r, genHeight(c), mkIn(k), false)
+			if i%2 == 0 {
+				elx.checkPoint()
+			}
 		}
+		// an election without producers / without delegations persists as such
+		elx.checkElection("an empty election", nil, nil)
+		elx.checkElection("an election without delegations", []types.Address{{0, 1}, {0, 2}}, nil)
 		// duplicate names (excluded by the pillar contract): monitors for length / membership only; the order may
 		// legitimately depend on the sort algorithm, so no line is emitted for the model
 		for i := 0; i < c.N/20+1; i++ {
@@ -378,6 +398,9 @@ func init() {
 		}
 		// nodeCount = 0 with no pillar terminates; no pillar with nodeCount > 0 spins forever (last op: the goroutine is abandoned)
 		electCase(c, 0, 0, 5, nil, false)
+		// restart: the consensus database closed and re-opened; then every election again under process-wide math/rand noise
+		elx.reopenAndVerify()
+		elx.noisyRerun()
 		electCase(c, NC, RC, 7, nil, true)
 	})
 }
